@@ -31,6 +31,10 @@ CHECKS = {
    technique='explicit-state breadth-first search over public API call sequences, histories replayed on fresh objects, conformance with a reference state machine on every transition',
    text='All sequences of an 18-operation alphabet (setters with valid and invalid arguments, add_operation(MDL|null), initialize, shoot, reset, destroy+new) up to depth 7 (quick) / 8 (thorough, with and without gA data) are executed on real decay0_generator objects; after every transition exception/no-exception, every getter, defaults after reset and a probe shot against a fresh instance are compared with a boring reference machine whose validity predicate is the transpiled reference rule set.',
    note='Trusted: reference machine written from the literal property text; merge of states justified by the reference state plus a sticky refused-operation mark; bounds 2 operations / 2 shots per history.'),
+ 'C07': dict(level='exploration', ref='DESIGN.md §2 C07', engine='c07',
+   technique='exhaustive enumeration of prior-activity histories up to a depth (replayed on fresh objects), differential probe shots against the canonical history',
+   text='For all 69 background names and 20+ double-beta configurations, every history up to depth 3 (4 thorough) over 11 kinds of prior API activity (event reuse with exact capacities, reset/re-initialise, other instances alive or destroyed, rebuild) is followed by 9 probe shots with recorded deviate streams that must equal the canonical first-shot-of-a-fresh-generator event bit for bit; working parameters compared after re-initialisation; one 1e4 (1e6 thorough) shot history per configuration.',
+   note='Trusted: bit-for-bit comparison; the long history is a single deterministic history, not exhaustive.'),
 }
 NOT_YET = {
 }
@@ -69,6 +73,7 @@ def main():
             {'name': 'dx', 'path': 'checks/dx.cc', 'serves_properties': ['C01', 'C02', 'C03', 'C04', 'C08'], 'kind_free_text': 'deviate-choice explorer: forced-position overlay on a counter-hash stream, threshold discovery on the transpiled Fortran model, layers A (edge coverage), B (deviation bounded), C (all discrete paths)'},
             {'name': 'c06', 'path': 'checks/c06.cc', 'serves_properties': ['C06'], 'kind_free_text': 'complete grid enumeration of initialisation requests against the reference rules'},
             {'name': 'c09', 'path': 'checks/c09.cc', 'serves_properties': ['C09'], 'kind_free_text': 'explicit-state BFS over API histories with a reference state machine'},
+            {'name': 'c07', 'path': 'checks/c07.cc', 'serves_properties': ['C07'], 'kind_free_text': 'history enumerator with differential probe shots'},
             {'name': 'd0ref', 'path': 'tools/f2cxx.py', 'serves_properties': ['C01', 'C02', 'C06'], 'kind_free_text': 'reference model generated from resources/code/decay0/decay0_2020-04-20.for'},
         ],
         'checks': checks,
